@@ -299,3 +299,30 @@ PROPS['C06'] = dict(
     level_text="Lean 4 theorems for Fork over a network of atomic bounded FIFO queues (the abstraction C04 justifies: one writer, one reader per queue), for EVERY input stream, fan-out, capacity and interleaving of feeder, helper and readers: C06_fork_prefix_inv (read_k ++ buffered_k ++ in-flight_k ++ input queue ++ unfed = input for every output k, in every reachable state: nothing lost, duplicated, reordered, invented), C06_fork_final (after completion every reader has read exactly the input), C06_fork_no_late (nothing is sent to an output after its closure). Split (round robin, splitSpec) and Split+Join (identity) are specified and checked on the real code over enumerated schedules, NOT proved; termination and the wait group are established by the exploration only.",
     level_note="PARTIAL: Split/Join and termination by exploration only. The helper goroutine's iterator loop is modelled as a counter over the outputs. Real goroutine scheduling and the wait group are Go runtime facts observed by the harness.",
 )
+
+PROPS['C20'] = dict(
+    id='C20', modules=['CollectionModel.Props.C20'],
+    key=lambda l: (l.get('ctor'), l.get('form'), l.get('ty'), size_class(l.get('n', 0)), l.get('npos'), (l.get('mod') or {}).get('out')),
+    nontrivial=lambda l: l.get('form') != 'none',
+    rule="cases = one call of a module-level constructor next to the class-level constructor (and, for source forms, "
+         "ParseSource) on the same data: {Array, List, Set, Stack, Queue} x {Go array, sequence, CDCN source, size/capacity "
+         "(uint and int), collator+array, none} x 7 element types, {Catalog, Map} x {Go array of associations, Go map, "
+         "sequence, source, none} x 9 key/value type pairs, Association(k, v) for the same pairs (identical and interface "
+         "types included), each with the notation argument absent / first / last, contents generated from the seed with "
+         "duplicates, sizes 0,1,2,3,15,16,17,20 (quick) / every size 0..20 (thorough); distinct = distinct (constructor, form, "
+         "type, size class, notation position, outcome)",
+    exhaustive_subspaces="the full cross product constructor x form x type x notation position x size 0..20 (thorough tier)",
+    level_text="Lean 4 theorems about the dispatch model of Module.go, generic in the element type and for contents of EVERY size: "
+               "collect_with_notations (notation arguments before/after, in any number, do not change the slots), C20_array / C20_list / "
+               "C20_set / C20_stack / C20_queue / C20_catalog / C20_map (each documented form builds exactly what the class constructor "
+               "builds from the same data: kind, contents, order, capacity; the Array fill loop, the list-then-MakeFromSequence route of "
+               "Stack/Queue and the pairwise SetValue loops are proved equal to the class constructors), set_source_is_parse / "
+               "catalog_source_is_parse / map_source_is_parse and the items clauses of C20_list/stack/queue/array (the source form has the "
+               "contents and order of the parsed collection), C20_association (key k, value v for disjoint, overlapping and identical "
+               "types, notation anywhere). Tie: every call of the matrix is run on the real code and on the compiled model; the "
+               "executable spec compares module result, class result and parse result.",
+    level_note="The dynamic type switch of Go (which case an argument takes) is an input of the model: the harness reports the type "
+               "assertions' results for Association and chooses the Arg constructor by the documented form for the others. The parser "
+               "is represented by its result (its own properties are C11/C12).",
+    assumptions=["default capacities are read from the classes at run time", "ParseSource is represented by the collection it returns"],
+)
